@@ -109,6 +109,18 @@ def check_kernel(rep, op, cyf):
     # tails
     tails, unk = k.tails(loop)
     got = set(s for s, _ in tails)
+    bulk = k.bulk_tails()
+    for side, line, ctg in bulk:
+        if side is None:
+            unk.append(line)
+        elif not ctg:
+            n += 1
+            rep.violated("R-C08-a", "%s@%d" % (where, line), "%s: tail of the %s operand copied with memcpy" % (op, side),
+                         "memcpy copies physically adjacent memory, but the parameter is declared as a general typed memoryview ([:]), which accepts strided views: for a[::2] or one column of a table the tail of the result is whatever lies between the elements",
+                         witness={"inputs": "union(contiguous [0], strided view [0, 2, 4] of [0,1,2,3,4]) -> [0, 2, 3]"})
+            got.add(side)
+        else:
+            got.add(side)
     if unk:
         rep.undecided("R-C08-a", "%s@%d" % (where, unk[0]), "%s: loops after the merge" % op, "a loop that is not a recognised tail copy")
     else:
